@@ -589,6 +589,27 @@ def fold_flag_tests(fn: ast.AST) -> int:
         while isinstance(t, ast.UnaryOp) and isinstance(t.op, ast.Not):
             t, neg = t.operand, not neg
         res: Optional[bool] = None
+
+        def member(e: ast.AST) -> Optional[str]:
+            # `Kind.MEMBER`: a constant of a class (enum member)
+            if isinstance(e, ast.Attribute) and isinstance(e.value, ast.Name) and \
+                    e.value.id.lstrip("_")[:1].isupper() and e.attr.isupper():
+                return ast.unparse(e)
+            return None
+        if member(val) is not None and isinstance(t, ast.Compare) and len(t.ops) == 1 and \
+                isinstance(t.left, ast.Name) and t.left.id == v:
+            other = t.comparators[0]
+            if member(other) is not None and isinstance(t.ops[0], (ast.Is, ast.Eq)):
+                res = member(other) == member(val)
+            elif member(other) is not None and isinstance(t.ops[0], (ast.IsNot, ast.NotEq)):
+                res = member(other) != member(val)
+            elif isinstance(other, (ast.Tuple, ast.List, ast.Set)) and all(
+                    member(e_) is not None for e_ in other.elts) and isinstance(
+                        t.ops[0], (ast.In, ast.NotIn)):
+                res = (member(val) in {member(e_) for e_ in other.elts}) == isinstance(
+                    t.ops[0], ast.In)
+            if res is not None:
+                return (not res) if neg else res
         is_ctor = isinstance(val, ast.Call) and isinstance(val.func, ast.Name) and \
             val.func.id.lstrip("_")[:1].isupper()
         if (is_ctor or isinstance(val, (ast.JoinedStr, ast.List, ast.Tuple, ast.Dict, ast.Set,
@@ -623,10 +644,21 @@ def fold_flag_tests(fn: ast.AST) -> int:
         i = 0
         while i + 1 < len(block):
             a, b = block[i], block[i + 1]
+            if isinstance(a, ast.Assign) and len(a.targets) == 1 and isinstance(
+                    a.targets[0], ast.Name) and isinstance(b, ast.If):
+                d0 = decide(b.test, a.targets[0].id, a, [])
+                nm0 = {x.id for x in ast.walk(b.test) if isinstance(x, ast.Name)
+                       and not x.id.lstrip("_")[:1].isupper()}
+                if d0 is not None and nm0 == {a.targets[0].id}:
+                    new0 = b.body if d0 else b.orelse
+                    block[i + 1:i + 2] = new0
+                    done += 1
+                    continue
             if not (isinstance(a, (ast.If, ast.Try)) and isinstance(b, ast.If)):
                 i += 1
                 continue
-            names = {x.id for x in ast.walk(b.test) if isinstance(x, ast.Name)}
+            names = {x.id for x in ast.walk(b.test) if isinstance(x, ast.Name)
+                     and not x.id.lstrip("_")[:1].isupper()}
             if len(names) != 1:
                 i += 1
                 continue
@@ -2166,7 +2198,7 @@ def inline_helpers(tree: ast.Module, modname: str, ref_functions: Set[str]) -> i
             if not k and not tr.n:
                 break
         if n:
-            for _r in range(4):
+            for _r in range(8):
                 if not fold_flag_tests(fn) + (scalarise_records(fn, recs) if recs else 0):
                     break
         # drop nested helper definitions that are no longer referenced
